@@ -569,6 +569,129 @@ def h5(rep, src):
             rep.violation("H5", key + "@unresolved", "already resolved references are re-bound (no `is_none()` guard): an outer definition overrides an inner one", f.where())
 
 
+def h6(rep, src):
+    rep.rule(
+        "H6",
+        "sql/relation.rs `last()` (the unqualified view of a column hierarchy used by SELECT/GROUP BY/ORDER BY resolution) admits a one-component name only through the hierarchy's own "
+        "unique-suffix lookup `columns.get(&[<last component>])` (decided by H1-H3), not through bookkeeping of its own",
+        floor=1,
+        necessary="a private ambiguity count that differs from the lookup (first/last wins, toggling set: three-way ambiguity counted as unique) binds an unqualified column shared by several FROM items to one of them",
+    )
+    f = src.one_fn(name="last", file="sql/relation.rs")
+    cp = [p["pat"]["name"] for p in f.params if p["pat"]["k"] == "ident"]
+    key = "sql::relation::last"
+    if len(cp) != 1:
+        rep.undecidable("H6", key, "expected one parameter", f.where())
+        return
+    c = cp[0]
+    st = f.body["stmts"]
+    tl = st[-1]["e"] if st and st[-1]["k"] == "expr" and not st[-1].get("semi") else None
+    fms, r = [], tl
+    while r is not None and r["k"] == "mcall":
+        if r["m"] in ("filter_map", "flat_map") and r["args"] and r["args"][0]["k"] == "closure":
+            fms.append(r)
+        r = r["recv"]
+    if len(fms) != 1:
+        rep.undecidable("H6", key, "expected one filter_map over the entries", f.where())
+        return
+    cl = fms[0]["args"][0]
+    gets = [m for m in find(cl["body"], "mcall") if m["m"] in ("get", "get_key_value") and path_of(m["recv"]) == c]
+    lets = {l["pat"]["name"]: l["init"] for l in find(cl["body"], "let") if l["pat"]["k"] == "ident" and l.get("init") is not None}
+    other_state = [l["pat"]["name"] for l in find(f.body, "let") if l["pat"]["k"] == "ident" and not any(l is x for x in find(cl["body"], "let"))]
+    ok = False
+    arg_txt = None
+    if len(gets) == 1:
+        a = gets[0]["args"][0]
+        while a["k"] == "ref":
+            a = a["e"]
+        if a["k"] == "array" and len(a["elems"]) == 1:
+            e = a["elems"][0]
+            while e["k"] == "mcall" and e["m"] in ("clone", "to_string", "to_owned", "as_str") or e["k"] == "ref":
+                e = e["recv"] if e["k"] == "mcall" else e["e"]
+            if e["k"] == "path" and e["p"] in lets:
+                e = lets[e["p"]]
+            arg_txt = show(e, 0).replace(" ", "")
+            pp = [pat_binds(p) for p in cl["params"]]
+            pathvar = pp[0][0] if pp and pp[0] else None
+            ok = pathvar is not None and arg_txt.startswith(pathvar + ".last()")
+    # the value of the closure must come from the lookup (and_then / map / ? on it), not from a parallel test
+    rep.instance("H6", key, {"lookup": show(gets[0], 60) if gets else None, "lookup_key": arg_txt, "own_state": other_state})
+    if not ok:
+        rep.violation("H6", key, "last() does not decide through `%s.get(&[path.last()])`: lookup=%s, own state=%s" % (c, arg_txt, other_state), f.where())
+    elif other_state:
+        rep.undecidable("H6", key, "last() keeps state of its own next to the lookup: %s" % other_state, f.where())
+    else:
+        tv = cl["body"]
+        while tv["k"] == "block":
+            st = tv["stmts"]
+            tv = st[-1]["e"] if st and st[-1]["k"] == "expr" and not st[-1].get("semi") else None
+            if tv is None:
+                break
+        root = tv
+        while root is not None and root["k"] in ("mcall", "try"):
+            if root is gets[0]:
+                break
+            root = root["recv"] if root["k"] == "mcall" else root["e"]
+        if root is not gets[0]:
+            rep.violation("H6", key, "the entry kept by last() is not the result of the lookup (`%s`)" % show(tv, 80), f.where())
+
+
+QUAL_OK = {"cloned", "clone", "into_iter", "iter", "chain", "collect_vec", "collect", "to_vec"}
+
+
+def h7(rep, src):
+    rep.rule(
+        "H7",
+        "try_from_table_factor registers the columns of a FROM item under <qualifier> ++ [column] where the qualifier is the alias when there is one and otherwise the WHOLE table path "
+        "(Table: the ObjectName as written; Derived: the sub-query's name), built with copying combinators only (no last()/skip/index)",
+        floor=4,
+        necessary="a truncated qualifier gives `prod.events` and `staging.events` the same keys: the right table silently replaces the left one in the joined hierarchy and `prod.events.v` is bound to the other table",
+    )
+    f = src.one_fn(name="try_from_table_factor", file="sql/relation.rs")
+    ms = [m for m in find(f.body, "match") if "table_factor" in show(m["e"], 0)]
+    if len(ms) != 1:
+        rep.undecidable("H7", "try_from_table_factor", "expected one match on table_factor", f.where())
+        return
+    for a in ms[0]["arms"]:
+        pt = show(a["pat"], 0)
+        kind = "Table" if "TableFactor::Table" in pt else ("Derived" if "TableFactor::Derived" in pt else None)
+        if kind is None:
+            if any(is_call_to(c, "RelationWithColumns::new") for c in find(a["body"], "call")):
+                rep.undecidable("H7", "try_from_table_factor@other", "a further arm builds column paths: %s" % show(a["pat"], 60), "src/sql/relation.rs:%d" % a["l"])
+            continue
+        where = "src/sql/relation.rs:%d" % a["l"]
+        key = "try_from_table_factor@" + kind
+        lets = [l for l in find(a["body"], "let") if l["pat"]["k"] == "ident" and l["pat"]["name"] == "name"]
+        if len(lets) != 1:
+            rep.undecidable("H7", key + "@qualifier", "expected one `let name = ..` (the qualifier)", where)
+            continue
+        q = lets[0]["init"]
+        ok_q = q["k"] == "mcall" and q["m"] == "unwrap_or" and len(q["args"]) == 1
+        dflt = show(q["args"][0], 0).replace(" ", "") if ok_q else None
+        want = ("name.cloned()", "name.clone()") if kind == "Table" else ("relation.name().cloned()", "relation.name().into()", "relation.name().to_string().into()")
+        alias_part = show(q["recv"], 0).replace(" ", "") if ok_q else None
+        rep.instance("H7", key + "@qualifier", {"alias": alias_part, "default": dflt})
+        if not ok_q or dflt not in want:
+            rep.violation("H7", key + "@qualifier", "the qualifier of an un-aliased %s item is `%s`, not the whole name (%s)" % (kind, dflt or show(q, 80), want[0]), where)
+        if ok_q and not (alias_part.startswith("alias") and "name" in alias_part):
+            rep.violation("H7", key + "@alias", "the aliased qualifier is not the alias name: %s" % alias_part, where)
+        # the key of each column
+        cols = [l for l in find(a["body"], "let") if l["pat"]["k"] == "ident" and l["pat"]["name"] == "columns"]
+        tuples = [t for l in cols for t in find(l["init"], "tuple") if len(t["elems"]) == 2 and "name" in show(t["elems"][0], 0)]
+        if len(tuples) != 1:
+            rep.undecidable("H7", key + "@key", "cannot find the (path, identifier) pair of `columns`", where)
+            continue
+        k0 = tuples[0]["elems"][0]
+        meths, r = [], k0
+        while r["k"] == "mcall":
+            meths.append(r["m"])
+            r = r["recv"]
+        bad = [m for m in meths if m not in QUAL_OK]
+        rep.instance("H7", key + "@key", {"path": show(k0, 120), "root": show(r, 20)})
+        if bad or path_of(r) != "name" or "chain" not in meths:
+            rep.violation("H7", key + "@key", "the column path is not name ++ [column] (combinators %s on %s)" % (bad, show(r, 30)), where)
+
+
 def run(rep):
     rep.explanation = (
         "Static arm-table check of hierarchy.rs (syn AST of the current tree). Decides: the suffix search counts matches with an absorbing `More` and only a single match "
@@ -587,5 +710,7 @@ def run(rep):
     h3(rep, src)
     h4(rep, src)
     h5(rep, src)
+    h6(rep, src)
+    h7(rep, src)
     rep.assume("rustc accepts the tree (the syn facts are parsed from the same files the build uses)")
     rep.assume("BTreeMap in hierarchy.rs is std::collections::BTreeMap (no local item of that name: checked)")
